@@ -935,6 +935,11 @@ func c20(c *core.Ctx) {
 	// "per direction": the two directions of a stream do not wait for each other, and every lock is released
 	// (C05/R4: a receive that queues behind a parked send makes a stalled direction stall the other)
 	c.Borrow("C05", map[string]string{"R4": "R7"}, c05)
+	// "... or the context ends": a sender parked on the full buffer is released when the call ends. The handler's
+	// side waits on the handler's context, which therefore ends with the call (C10/R8), and a client stream that
+	// gives the call up by itself (the single-response check) cancels it (C05/R10)
+	c.Borrow("C10", map[string]string{"R8": "R8"}, c10)
+	c.Borrow("C05", map[string]string{"R10": "R9"}, c05)
 
 }
 
